@@ -90,13 +90,17 @@ pub fn structure_of(shape: &Shape) -> Structure {
   s
 }
 
-pub fn structure_diff(a: &Structure, b: &Structure) -> Option<(String, String)> {
+pub fn structure_diff(
+  a: &Structure,
+  b: &Structure,
+) -> Option<(String, String, Option<String>)> {
   for (k, v) in &a.entries {
     match b.entries.get(k) {
       None => {
         return Some((
           "entry-only-in-first".into(),
           format!("{} = {}", k, truncate(v, 120)),
+          Some(k.clone()),
         ));
       }
       Some(w) if w != v => {
@@ -116,6 +120,7 @@ pub fn structure_diff(a: &Structure, b: &Structure) -> Option<(String, String)> 
         return Some((
           format!("entry-differs:{}-vs-{}", class(v), class(w)),
           format!("{}: {} vs {}", k, truncate(v, 160), truncate(w, 160)),
+          Some(k.clone()),
         ));
       }
       _ => {}
@@ -126,6 +131,7 @@ pub fn structure_diff(a: &Structure, b: &Structure) -> Option<(String, String)> 
       return Some((
         "entry-only-in-second".into(),
         format!("{} = {}", k, truncate(v, 120)),
+        Some(k.clone()),
       ));
     }
   }
@@ -133,6 +139,7 @@ pub fn structure_diff(a: &Structure, b: &Structure) -> Option<(String, String)> 
     return Some((
       "redirects-differ".into(),
       format!("{:?} vs {:?}", a.redirects, b.redirects),
+      None,
     ));
   }
   for (k, v) in &a.code_edges {
@@ -141,6 +148,7 @@ pub fn structure_diff(a: &Structure, b: &Structure) -> Option<(String, String)> 
         return Some((
           "code-edges-differ".into(),
           format!("{}: {:?} vs {:?}", k, v, w),
+          None,
         ));
       }
     }
@@ -412,7 +420,16 @@ pub fn run_case(tape: &mut Tape, _tier: Tier, _p: &CaseParams) -> CaseOutcome {
   sc.entries.retain(|k, _| reach.contains(k));
   sc.code_edges.retain(|k, _| reach.contains(k));
   sc.redirects.retain(|k, _| reach.contains(k));
-  if let Some((class, what)) = structure_diff(&sp, &sc) {
+  if let Some((class, what, key)) = structure_diff(&sp, &sc) {
+    let class = if class.starts_with("entry-differs")
+      && key
+        .as_ref()
+        .is_some_and(|k| crate::checks::worlds::context_sensitive(&world, k))
+    {
+      format!("first-visitor-context:{}", class)
+    } else {
+      class
+    };
     out.violation(
       "C17",
       "pruned-equals-code-only",
